@@ -200,7 +200,12 @@ def check(ctx):
                              % (sorted(set(ex)) or trunc.group(1)), f.file, e["ln"]))
                 else:
                     r3.ok("%s::%s visits every attribute" % (f.owner, f.name))
-    r3.require_floor(5, "attribute recognisers")
+    # ... and the walk over the items of one #[serde(..)] is not cut short either: every callback consumes its item's arguments (shared with C11-D4)
+    from metawalk import check_meta_walks
+    n_walks = check_meta_walks(ctx, r3, lambda fid: "::serde_parser::SerdeParser::" in fid, "#[serde(..)]")
+    if not n_walks:
+        r3.bad(V(r3.id, "<anchor>", "missing:serde-meta-walk", "anchor not found: no parse_nested_meta walk in SerdeParser"))
+    r3.require_floor(7, "attribute recognisers + item walks")
     rules.append(r3)
 
     # ---------------------------------------------------------------- D4
